@@ -19,6 +19,7 @@ THEOREMS = ["Poor.Query.unquote_Enc", "Poor.Query.quotePlus_Enc",
             "Poor.Props.C10.C10_args_form_agree",
             "Poor.Props.C10.C10_blank",
             "Poor.Props.C10.C10_json_accessors",
+            "Poor.Props.C10.C10_reads_prefix", "Poor.Props.C10.C10_reads_conserve",
             "Poor.Props.C10.C10_taken_le",
             "Poor.Props.C10.C10_taken_prefix",
             "Poor.Props.C10.C10_no_body_no_read",
@@ -284,6 +285,20 @@ def observe(case):
                 return "ValueError"
         if t[1] == "enc":
             return hx(urllib.parse.urlencode(parse_pairs(t[2])))
+        if t[1] == "reads":
+            # `reads <content-length> <stream> <k,k,..> <auto_data> <data_size> <cached_size>`: the handler reads a body the
+            # framework does not parse, piece by piece
+            from poorwsgi.request import Request
+            cl, src = int(t[2]), unhx(t[3])
+            ops = [] if t[4] == "none" else [None if k == "-" else int(k) for k in t[4].split(",")]
+            app = get_app(auto_data=t[5] == "1", data_size=int(t[6]), cached_size=int(t[7]), auto_form=False, auto_json=False)
+            spy = Spy(src)
+            env = environ("POST", "", None, "application/octet-stream", cl, stream=spy)
+            req = Request(env, app)
+            out = [req.read() if k is None else req.read(k) for k in ops]
+            # bytes buffered by the request (auto_data) count as not yet taken by the handler
+            left = len(src) - sum(len(x) for x in out)
+            return ",".join(hx(x) for x in out) + " left %d" % left
         if t[1] in ("args", "form"):
             keep, strict = int(t[2]), int(t[3])
             app = get_app(keep_blank_values=keep, strict_parsing=strict)
@@ -367,6 +382,8 @@ def to_model(case):
     t = case.split()
     if t[1] == "e2e":
         return []
+    if t[1] == "reads":
+        return [" ".join(t[:5])]       # buffering settings do not matter to the model
     if t[1] == "args":
         # the query string is stripped before it is parsed (request.py:182)
         return [case]
@@ -395,6 +412,13 @@ def generate(rng, tier):
         cases.append("C10 unq " + hx(s))
     for _ in range(3000 if big else 500):
         cases.append("C10 unq " + hx(rand_text(rng, rng.randrange(0, 8), RAW)))
+    for _ in range(1500 if big else 300):
+        n = rng.randrange(0, 12)
+        src = bytes(rng.randrange(256) for _ in range(n + rng.randrange(0, 5)))
+        cl = rng.choice([n, n, n, 0, max(n - 2, 0), len(src)])
+        ops = [rng.choice(["-", "-", "0", "1", "2", "3", "7", "100"]) for _ in range(rng.randrange(0, 6))]
+        cases.append("C10 reads %d %s %s %d %d %d" % (cl, hx(src), ",".join(ops) or "none", rng.randrange(2),
+                                                    rng.choice([0, 4, 65365]), rng.choice([0, 1, 3, 65365])))
     for _ in range(3000 if big else 500):
         qs = rand_text(rng, rng.randrange(0, 10), RAW)
         cases.append("C10 qsl %d %d %s" % (rng.randrange(2), rng.randrange(2), hx(qs)))
